@@ -7,6 +7,7 @@ From Qryn Require Import proofs.QuoteProofs proofs.ChLexProofs proofs.LikeProofs
   proofs.SqlPiecesProofs.
 From Qryn Require model.TqSql model.TqPieces proofs.TqPiecesProofs.   (* qualified: TqSql re-uses the names of Sql *)
 From Qryn Require Import model.WSites gen.GenC10WSites proofs.WSitesProofs.
+From Qryn Require model.Logql model.LogqlPlan model.PromSel model.ProfSel model.SqlPiecesSel.   (* qualified *)
 Import ListNotations.
 Open Scope string_scope.
 
@@ -183,6 +184,58 @@ Theorem request_values_keep_statement_structure : forall f q cluster p,
     lex txt' = etoks QN (pm f p) /\ rvalues (pm f p) = map f (rvalues p).
 Proof. exact values_keep_structure. Qed.
 Print Assumptions request_values_keep_statement_structure.
+
+(* ---- Prometheus label matchers and Pyroscope selectors: C17's planner models (model/PromSel.v transpile_label_matchers /
+   ..._downsample / querier_transpile, model/ProfSel.v prof_selector_abs, tied byte for byte to reader/promql/transpiler and
+   reader/prof/transpiler by C17) build model/Sql.v trees and print through model/SqlRender.v, so the renderer theorem is about
+   them: for every oracle, hints, context, matcher list and EVERY replacement f of the values of the planned tree, the statement
+   keeps its token skeleton and its value literals decode to the new values, provided the value-independent check pok holds for
+   the tree - which checks/c10sel.py evaluates on the model's tree for hostile matcher values and label names, together with
+   flat(pieces) = the SQL the real planners print. *)
+Corollary promql_selection_values_keep_statement_structure : forall f (c : PromSel.pcase) p,
+  pieces (SqlPiecesSel.pcase_tree c) (LogqlPlan.c_cluster (PromSel.pc_ctx c)) = Some p -> pok QN p = true ->
+  exists txt txt', render (SqlPiecesSel.pcase_tree c) (LogqlPlan.c_cluster (PromSel.pc_ctx c)) = Some txt /\
+    render (subst_sel f (SqlPiecesSel.pcase_tree c)) (LogqlPlan.c_cluster (PromSel.pc_ctx c)) = Some txt' /\
+    skeleton (lex txt') = skeleton (lex txt) /\
+    lex txt' = etoks QN (pm f p) /\ rvalues (pm f p) = map f (rvalues p).
+Proof. intros f c p. exact (values_keep_structure f _ _ p). Qed.
+Print Assumptions promql_selection_values_keep_statement_structure.
+
+Corollary profile_selection_values_keep_statement_structure : forall f (c : ProfSel.fcase) p,
+  pieces (SqlPiecesSel.fcase_tree c) (ProfSel.fc_cluster c) = Some p -> pok QN p = true ->
+  exists txt txt', render (SqlPiecesSel.fcase_tree c) (ProfSel.fc_cluster c) = Some txt /\
+    render (subst_sel f (SqlPiecesSel.fcase_tree c)) (ProfSel.fc_cluster c) = Some txt' /\
+    skeleton (lex txt') = skeleton (lex txt) /\
+    lex txt' = etoks QN (pm f p) /\ rvalues (pm f p) = map f (rvalues p).
+Proof. intros f c p. exact (values_keep_structure f _ _ p). Qed.
+Print Assumptions profile_selection_values_keep_statement_structure.
+
+(* the hypotheses are met by the model's tree of up{job=~"zqxmark"} / of a profile selector {job="zqxmark"} *)
+Example promql_selection_example :
+  let c := {| PromSel.pc_id := 1%Z; PromSel.pc_kind := PromSel.KRaw;
+              PromSel.pc_hints := {| PromSel.h_start := 1700000000000%Z; PromSel.h_end := 1700003600000%Z; PromSel.h_step := 15000%Z;
+                                     PromSel.h_func := "rate"; PromSel.h_range := 60000%Z |};
+              PromSel.pc_ctx := {| LogqlPlan.c_from_ns := 1700000000000000000%Z; LogqlPlan.c_to_ns := 1700003600000000000%Z; LogqlPlan.c_limit := 0%Z;
+                                   LogqlPlan.c_asc := false; LogqlPlan.c_cluster := false; LogqlPlan.c_type := 2%Z; LogqlPlan.c_finalize := false;
+                                   LogqlPlan.c_step_ns := 0%Z; LogqlPlan.t_gin := "time_series_gin"; LogqlPlan.t_samples := "samples_v3";
+                                   LogqlPlan.t_ts := "time_series"; LogqlPlan.t_ts_dist := "time_series_dist"; LogqlPlan.t_m15 := "metrics_15s" |};
+              PromSel.pc_ms := [ {| Logql.m_name := "job"; Logql.m_op := Logql.MRe; Logql.m_val := "zqxmark" |} ];
+              PromSel.pc_full := [] |} in
+  match pieces (SqlPiecesSel.pcase_tree c) false with
+  | Some p => pok QN p = true /\ existsb (String.eqb "^(?:zqxmark)$") (rvalues p) = true
+  | None => False
+  end.
+Proof. vm_compute. split; reflexivity. Qed.
+Example profile_selection_example :
+  let c := {| ProfSel.fc_id := 1%Z; ProfSel.fc_table := "profiles_series_gin"; ProfSel.fc_from_ns := 1700000000000000000%Z;
+              ProfSel.fc_to_ns := 1700003600000000000%Z; ProfSel.fc_cluster := false;
+              ProfSel.fc_sels := [ {| ProfSel.sl_name := "job"; ProfSel.sl_op := Logql.MEq; ProfSel.sl_val := "zqxmark" |} ];
+              ProfSel.fc_full := [] |} in
+  match pieces (SqlPiecesSel.fcase_tree c) false with
+  | Some p => pok QN p = true /\ existsb (String.eqb "zqxmark") (rvalues p) = true
+  | None => False
+  end.
+Proof. vm_compute. split; reflexivity. Qed.
 
 (* text level: two segmented texts that differ only inside their value pieces *)
 Theorem same_shape_same_structure : forall p p', shape p = shape p' ->
